@@ -136,6 +136,34 @@ CLAIMED = {
             'containers fail the run).  Crash model: exceptions raised by computations; an interrupt '
             'between two adjacent simple stores is outside it.',
             'DESIGN.md section 2, Engine D'),
+    'C14': ('C-interval-direction',
+            'static analysis: rounding-direction typing of interval values on top of the rounding-flow '
+            'abstract interpretation (mode terms, monotonicity table, enclosure typing at returns and at '
+            'hand-overs), mode-threading analysis of the real kernels used with directed modes',
+            'Clause: every endpoint produced by a real interval function is rounded outward (lower: floor, '
+            'upper: ceiling, or exact / input endpoint / constant) on every path; rounded intermediates '
+            'are used only in positions whose monotonicity preserves their bound; intervals passed between '
+            'interval functions are enclosures; every real kernel called with an explicit directed mode '
+            'honours it at its final rounding on every path (found: loggamma negated after rounding, so '
+            'iv.loggamma was inverted for x < 1.46 - repaired); the cos/sin outward perturbation has the '
+            'right shape; conversions round each endpoint outward.  NOT decided: choice of corner / '
+            'monotonicity region (one seeded change of that kind is not detected) and the accuracy of the '
+            'transcendental kernels inside their guard bits.',
+            'Trusts the monotonicity table (sa/iv_dir.py), the reasoned operand exemptions '
+            '(tables.C_OPERAND_EXEMPT) and kernel accuracy before the final directed rounding.',
+            'DESIGN.md section 2, Engine C'),
+    'C15': ('C-interval-direction',
+            'static analysis: the same rounding-direction typing applied to the complex-rectangle '
+            'functions, plus operand-order rules on the interval operator machinery',
+            'Clause: all four endpoints of every rectangle produced by an mpci_* function are rounded '
+            'outward on every path and every interval handed between interval functions is an enclosure '
+            '(this pins the rounding direction of the corner values of mpci_gamma - a genuine defect in '
+            'the real-axis-crossing case was repaired); the binary-operator machinery of iv.mpf/iv.mpc '
+            'passes operands in the right (reflected) order to the paired kernels.  NOT decided: corner '
+            'selection, the excluded region of gamma, value-level tightenings (two of three seeded changes '
+            'are of that kind and are not detected).',
+            'Trusts C14\'s real interval functions and the monotonicity table.',
+            'DESIGN.md section 2, Engine C'),
     'C16': ('F-order-abs',
             'static analysis: abstract interpretation of the predicates\' AST over the finite domain '
             'of endpoint orderings (exhaustive), plus dispatch-table rules',
